@@ -256,6 +256,8 @@ def cmd_check(pid, tier):
                    str(p.get("case_timeout", 20)), "--time-limit", str(limit), "--outdir", outdir]
             if s.get("enumerate"):
                 cmd.append("--enumerate")
+            if s.get("pin"):
+                cmd.append("--pin")
             env = run_env({"PBT_EXCLUDE": ",".join(exclude)})
             env.update(s.get("env", {}))
             try:
